@@ -19,6 +19,7 @@ import (
 // Family p2p (C05): WriteMessage / ReadMessage and the 16 payload kinds on the real code.
 //
 //	rd <magic> <stream> <keys>     ReadMessage with NetworkMagic = <magic>: "ok <kind> <V> len=<payload> rest=<unread>" | "err:<class>" | "panic"
+//	wr2 <magic> <f1> <f2> <junk> <keys>  both messages written into one sink that already holds <junk>: junk ++ f1 ++ f2, both read back
 //	hold <magic> <f1> <f2> <f3> <keys>   the message decoded from f1 is kept while f2 (same reader) and f3 (another reader) are read, then compared
 //	bigframe <magic> <version|tx> <payloadLen> <seed>   large frames: Checksum vs reference, corruption at block boundaries / in the tail
 //	prop <magic> <frame> <keys>    property of a frame produced by WriteMessage: reads back, re-writes to the same bytes,
@@ -194,6 +195,9 @@ func (f *p2pFam) Exec(r *hx.Run, op []string) string {
 		if len(data) >= 24 {
 			hm := uint32(data[0]) | uint32(data[1])<<8 | uint32(data[2])<<16 | uint32(data[3])<<24
 			l := uint32(data[16]) | uint32(data[17])<<8 | uint32(data[18])<<16 | uint32(data[19])<<24
+			if name := bytes.TrimRight(data[4:16], "\x00"); bytes.IndexByte(name, 0) >= 0 {
+				r.Viol("C05:malformed-command-field-accepted", fmt.Sprintf("frame accepted as %s although its command field %x is not a name followed only by zero padding", kind, data[4:16]))
+			}
 			if hm != magic {
 				r.Viol("C05:wrong-magic-accepted", fmt.Sprintf("frame with magic %d accepted under network magic %d", hm, magic))
 			}
@@ -207,6 +211,54 @@ func (f *p2pFam) Exec(r *hx.Run, op []string) string {
 		return fmt.Sprintf("ok %s %s len=%d rest=%d", kind, v, plen, rest)
 	case "hold":
 		return f.holdOp(r, magic, op)
+	case "wr2":
+		// wr2 <magic> <f1> <f2> <junk> <keys>: the messages of f1 and f2 are written one after the other into ONE sink that already
+		// holds <junk> (possibly empty); the sink must read junk ++ f1 ++ f2 and both frames must read back from it
+		if len(op) != 6 {
+			return "bad-op"
+		}
+		f1, f2, junk := hx.UnHex(op[2]), hx.UnHex(op[3]), hx.UnHex(op[4])
+		config.DefConfig.P2PNode.NetworkMagic = magic
+		res, pm := guarded(func() string {
+			m1, _, e1 := mt.ReadMessage(bytes.NewReader(f1))
+			m2, _, e2 := mt.ReadMessage(bytes.NewReader(f2))
+			if e1 != nil || e2 != nil {
+				return "bad-op"
+			}
+			k1, _ := renderMsg(m1)
+			k2, _ := renderMsg(m2)
+			sink := common.NewZeroCopySink(nil)
+			sink.WriteBytes(junk)
+			if err := mt.WriteMessage(sink, m1); err != nil {
+				return "bad-op"
+			}
+			if err := mt.WriteMessage(sink, m2); err != nil {
+				return "bad-op"
+			}
+			want := append(append(append([]byte{}, junk...), f1...), f2...)
+			got := sink.Bytes()
+			if !bytes.Equal(got, want) {
+				r.Viol("C05:frame-appended-to-nonempty-sink-differs", fmt.Sprintf("a %s and a %s message written into one sink after %d bytes give %s, the frames written alone are %s and %s",
+					k1, k2, len(junk), trunc(hx.Hex(got[min2(len(junk), len(got)):]), 160), trunc(hx.Hex(f1), 80), trunc(hx.Hex(f2), 80)))
+				return "FAIL:bytes " + k1 + " " + k2
+			}
+			rd := bytes.NewReader(got[len(junk):])
+			for i, k := range []string{k1, k2} {
+				m, _, err := mt.ReadMessage(rd)
+				if err != nil {
+					r.Viol("C05:frame-appended-to-nonempty-sink-differs", fmt.Sprintf("frame %d (%s) written into a non-empty sink is not read back: %v", i+1, k, err))
+					return "FAIL:read " + k1 + " " + k2
+				}
+				if kk, _ := renderMsg(m); kk != k {
+					return "FAIL:kind " + k1 + " " + k2
+				}
+			}
+			return "ok " + k1 + " " + k2
+		})
+		if res == "panic" {
+			r.Viol("C05:write-panic:"+panicSite(pm), "wr2 panics: "+pm)
+		}
+		return res
 	case "bigframe":
 		return f.bigFrameOp(r, magic, op)
 	case "prop":
@@ -734,6 +786,41 @@ func (f *p2pFam) Gen(r *hx.Run) {
 			f1, f2, f3 := writeFrame(magics[0], m), fat(), fat()
 			out := r.Do(fmt.Sprintf("hold %d %s %s %s %s", magics[0], hx.Hex(f1), hx.Hex(f2), hx.Hex(f3), keyOracle(f1)))
 			r.Nontrivial(fmt.Sprintf("hold/%s/%s", kind, outClass(out)))
+		}
+	}
+	// 2b'. two messages written into one sink (empty, or already holding other bytes)
+	for i := 0; i < r.Pick(40, 1500); i++ {
+		newCase("wr2")
+		k1, k2 := p2pKinds[r.Rng.Intn(len(p2pKinds))], p2pKinds[r.Rng.Intn(len(p2pKinds))]
+		m1, m2 := f.genMsg(r, k1), f.genMsg(r, k2)
+		if m1 == nil || m2 == nil {
+			continue
+		}
+		f1, f2 := writeFrame(magics[0], m1), writeFrame(magics[0], m2)
+		junk := r.Rng.Bytes([]int{0, 0, 1, 24, 25, 100}[r.Rng.Intn(6)])
+		out := r.Do(fmt.Sprintf("wr2 %d %s %s %s %s", magics[0], hx.Hex(f1), hx.Hex(f2), hx.Hex(junk), keyOracle(f1, f2)))
+		r.Nontrivial(fmt.Sprintf("wr2/%s/%s/%d/%s", k1, k2, len(junk), outClass(out)))
+	}
+	// 2b''. command fields that are a known name, a zero byte, and then something else: not name + zero padding
+	for _, kind := range p2pKinds {
+		for i := 0; i < r.Pick(2, 40); i++ {
+			newCase("cmdfield-" + kind)
+			m := f.genMsg(r, kind)
+			if m == nil {
+				continue
+			}
+			frame := writeFrame(magics[0], m)
+			var c [12]byte
+			copy(c[:], kind)
+			free := 12 - len(kind) - 1
+			if free <= 0 {
+				continue
+			}
+			c[len(kind)+1+r.Rng.Intn(free)] = byte(1 + r.Rng.Intn(255))
+			if r.Rng.Bool() {
+				c[11] = 'X'
+			}
+			rd(magics[0], reframe(magics[0], string(c[:]), frame[24:]))
 		}
 	}
 	// 2c. large frames: payloads around and beyond 256 KiB
